@@ -4,7 +4,8 @@ import plugincheck
 THEOREMS = ["release_only_when_licensed", "never_kept", "immutable_kept_sts", "default_released_by_event", "resync_item_exact",
             "resync_pass_exact", "resync_pass_no_orphans", "prefix_reserve_survives_resync",
             "keyuid_invariant", "keyuid_preserved", "resync_keeps_alive_pod", "event_keeps_alive_pod", "queued_event_keeps_alive_pod",
-            "alive_pod_keeps_ip"]
+            "alive_pod_keeps_ip", "immutable_dp_over_replicas_releases", "immutable_dp_within_replicas_reserves",
+            "immutable_dp_nonvacuous"]
 REFUTED = ["dp_reserve_leak_refuted", "alive_pod_keeps_ip_refuted_old"]
 KNOWN_FINDINGS = [
     {"id": "F18", "status": "fixed", "commit": "58ad117", "tag": "c03-mixed-uid-key",
@@ -33,7 +34,7 @@ MANIFEST = {
             "the property - reserves of a deleted deployment, K1 - is proved as dp_reserve_leak_refuted on a reachable world and "
             "reported as KNOWN-FINDING. Tied to the code by policy x kind x scale/delete scenario histories ending in a "
             "quiescence phase (+ random histories) on the real FloatingIPPlugin vs the model step by step, with the policy "
-            "predicates evaluated on the implementation's dumps.",
+            "predicates evaluated on the implementation's dumps. Immutable deployments (Proofs/PluginReplicasP.v): immutable_dp_over_replicas_releases - a handled pod event frees the pod's IPs when the app holds more IPs than it has replicas; immutable_dp_within_replicas_reserves - otherwise they are parked under the app's prefix key and nothing is freed.",
     "note": "trusted: Coq kernel (no axioms); harness fakes; section atomicity (DESIGN.md section 5); stored policy codes are 0..2 "
             "(what parseReleasePolicy produces); scalable custom resources (dynamic client) are not modelled - for kinds other than "
             "statefulset and deployment only `never` for indexed pod names is supported, as in the code without a CRD lister",
